@@ -416,6 +416,8 @@ impl<'b> Roots<'b> {
 
                 let thread = &*(&*thread_ptr as *const Thread);
 
+                #[cfg(feature = "verif_hooks")]
+                crate::verif::sched_point("mark_child_roots");
                 let context = thread.context.lock().unwrap();
 
                 let child_threads = thread.child_threads.read().unwrap();
@@ -1017,6 +1019,92 @@ impl Thread {
             stack: &context.stack,
         };
         f(&mut context.gc, roots)
+    }
+}
+
+#[cfg(feature = "verif_hooks")]
+impl Thread {
+    /// Read-only walk over every heap of this vm from every root. Must be called at a quiescent
+    /// point (no thread of this vm running).
+    pub fn verif_check_heaps(&self) -> crate::verif::HeapReport {
+        use crate::verif::{HeapReport, Visitor};
+        let mut top: &Thread = self;
+        while let Some(ref parent) = top.parent {
+            top = unsafe { &*(&**parent as *const Thread) };
+        }
+        // Lock every thread parent-before-child
+        let mut threads: Vec<(GcPtr<Thread>, MutexGuard<'_, Context>)> = Vec::new();
+        let mut parents: Vec<Option<usize>> = Vec::new();
+        unsafe {
+            let top_ptr = GcPtr::from_raw(top);
+            let guard = (&*(&*top_ptr as *const Thread)).context.lock().unwrap();
+            threads.push((top_ptr, guard));
+            parents.push(None);
+            let mut i = 0;
+            while i < threads.len() {
+                let thread: &Thread = &*(&*threads[i].0 as *const Thread);
+                let children: Vec<GcPtr<Thread>> = thread
+                    .child_threads
+                    .read()
+                    .unwrap()
+                    .iter()
+                    .map(|(_, t)| t.clone())
+                    .collect();
+                for child in children {
+                    let guard = (&*(&*child as *const Thread)).context.lock().unwrap();
+                    threads.push((child, guard));
+                    parents.push(Some(i));
+                }
+                i += 1;
+            }
+        }
+        let global_gc = top.global_state.gc.lock().unwrap();
+        let mut visitor = Box::new(Visitor::default());
+        let global_id = global_gc.verif_id();
+        global_gc.verif_for_each_object(|addr, _| {
+            visitor.live.insert(addr, global_id);
+        });
+        for (i, (_, ctx)) in threads.iter().enumerate() {
+            let id = ctx.gc.verif_id();
+            ctx.gc.verif_for_each_object(|addr, _| {
+                visitor.live.insert(addr, id);
+            });
+            let parent_id = match parents[i] {
+                Some(p) => threads[p].1.gc.verif_id(),
+                None => global_id,
+            };
+            visitor.parent.insert(id, parent_id);
+        }
+        for (ptr, _) in &threads {
+            visitor.visited.insert(&**ptr as *const Thread as usize);
+        }
+        let mut report = HeapReport::default();
+        report.heaps = threads.len() + 1;
+        report.live_objects = visitor.live.len();
+
+        // Per thread roots
+        let mut vgc = Gc::new(Generation::default().next(), usize::MAX);
+        for (ptr, ctx) in &threads {
+            visitor.root_heap = ctx.gc.verif_id();
+            vgc.verif_visitor = Some(visitor);
+            Roots {
+                vm: ptr,
+                stack: &ctx.stack,
+            }
+            .trace(&mut vgc);
+            visitor = vgc.verif_visitor.take().unwrap();
+        }
+        // Global roots
+        let mut ggc = Gc::new(Generation::default(), usize::MAX);
+        visitor.root_heap = global_id;
+        ggc.verif_visitor = Some(visitor);
+        top.global_state.trace(&mut ggc);
+        let visitor = ggc.verif_visitor.take().unwrap();
+
+        report.reachable_objects = visitor.visited.len();
+        report.edges = visitor.edges;
+        report.bad = visitor.bad;
+        report
     }
 }
 
@@ -2107,6 +2195,13 @@ impl<'b, 'gc> ExecuteContext<'b, 'gc> {
             program_counter.step();
 
             debug_instruction(&self.stack, instruction_index, instr);
+            #[cfg(feature = "verif_hooks")]
+            crate::verif::on_instr(
+                self.stack.stack().len() as usize,
+                self.stack.len() as usize,
+                function.max_stack_size as usize,
+                self.stack.stack().max_stack_size() as usize,
+            );
 
             if !self.hook.flags.is_empty() && self.hook.flags.contains(HookFlags::LINE_FLAG) {
                 ready!(self.run_hook(&function, instruction_index))?;
